@@ -35,6 +35,13 @@ Definition m2 (l : list Q) : Q := qsum (map (fun r => (r - mean l) * (r - mean l
 (* empirical transition frequency *)
 Definition freq (h : list hrec) (s a s1 : nat) : Q := inj (count h s a s1) / inj (countsum h s a).
 
+(* bandit history: (arm, reward) since the last reset *)
+Definition bhist_step (h : list (nat * Q)) (o : bop) : list (nat * Q) :=
+  match o with BRecord a r => h ++ [(a, r)] | BReset => [] end.
+Definition bhist_of (ops : list bop) : list (nat * Q) := fold_left bhist_step ops [].
+Definition arm_rewards (h : list (nat * Q)) (a : nat) : list Q := map snd (filter (fun x => (fst x =? a)%nat) h).
+Definition bop_in_range (A : nat) (o : bop) : bool := match o with BRecord a _ => (a <? A)%nat | BReset => true end.
+
 (* executable twins (Qred after every addition so numerators/denominators stay small) *)
 Fixpoint qsum_x (l : list Q) : Q := match l with [] => 0 | x :: t => Qred (x + qsum_x t) end.
 Definition mean_x (l : list Q) : Q := Qred (qsum_x l / inj (length l)).
